@@ -681,3 +681,48 @@ def run_property(prop):
 
 if __name__ == '__main__':
     sys.exit(run_property(sys.argv[1]))
+
+
+def replay(prop, p, path):
+    """re-execute a recorded case of C09 / C10 / C11 / C17 against /repo"""
+    findings = load_findings()
+    if 'case' in p and isinstance(p['case'], dict) and 'archive' in p['case']:
+        from common import Scratch
+        sc = Scratch()
+        try:
+            res = [a for a in archive_sessions(sc, True) if a['archive'] == p['case']['archive'] and a['keymap'] == p['case']['keymap']]
+        finally:
+            sc.close()
+        print(json.dumps(res, indent=1, default=repr))
+        bad = [a for a in res if not a['read'] or 'error' in a['read'] or a['read']['evaluations'] != 0]
+        if bad:
+            print('VIOLATION property=%s replay=%s' % (prop, path))
+            return 1
+        print('replay: the recorded case no longer fails')
+        return 0
+    if 'trace_index' not in p or 'seed' not in p:
+        print('replay: %s records a broken proof/correspondence or a session experiment (%s); run ./check %s' % (path, p.get('broken') or p.get('what'), prop))
+        return 1
+    idx, sd = p['trace_index'], p['seed']
+    case = gen_case(prop, sd, idx)
+    res = run_case(prop, case, kc.all_keymaps())
+    hits = list(res['hits'])
+    if prop in ('C09', 'C10', 'C11') and idx % 2 == 0:
+        hits += decorator_glue(prop, case, idx)
+    if prop in ('C09', 'C10', 'C11'):
+        hits += keys_ext.run_ext_case(prop, sd, idx)[0]
+    left = []
+    for h in hits:
+        kf = classify_known(prop, h, findings)
+        if kf:
+            print('KNOWN-FINDING: property=%s %s: %s' % (prop, kf['id'], h['what'][:200]))
+        else:
+            left.append(h)
+    print(json.dumps({'def': kc.sig_text(case['sig']), 'ignore': list(case['ignore']), 'divergence': res['corr'][:2],
+                      'monitor_hits': [h['what'] for h in left][:5]}, indent=1, default=repr))
+    if left or res['corr']:
+        print('VIOLATION property=%s replay=%s' % (prop, path))
+        return 1
+    print('replay: the recorded case no longer fails')
+    return 0
+
